@@ -452,3 +452,52 @@ Definition mclean (m : mll) : Prop := n_open m = 0 /\ files m = [] /\ fsize m = 
    closed, the table is released and no cgio handle acquired by cg_open is still held *)
 Definition handles_released (v : mvariant) : Prop :=
   forall ops m, mrun v mll_init [] ops = (m, []) -> mclean m.
+
+(* ---------------------------------------------------------------------------------------------------------------------
+   HDF5 side: the identifiers of ONE file that are still open when ADFH_Database_Close runs (ADFH_FORCE_ID_CLOSE block).
+   Ordinary use leaves group identifiers (every node id handed out is one); a call that fails half-way may leave any kind
+   (ADFH_Read_*_Data without a memory type: the dataset and the group).  The block closes, kind by kind,
+       nobj = H5Fget_obj_count(fid, <counted kind> | LOCAL);
+       if (nobj) { H5Fget_obj_ids(fid, <listed kind> | LOCAL, -1, objs); for (n < nobj) <close>(objs[n]); }
+   and H5Fclose (default close degree) then gives the descriptor back only when no identifier of the file remains. *)
+Inductive idkind := IType | IDset | IAttr | IGroup.
+
+Record h5ids := mkids { n_type : nat; n_dset : nat; n_attr : nat; n_group : nat }.
+
+Definition id_count (s : h5ids) (k : idkind) : nat :=
+  match k with IType => n_type s | IDset => n_dset s | IAttr => n_attr s | IGroup => n_group s end.
+
+Definition id_set (s : h5ids) (k : idkind) (n : nat) : h5ids :=
+  match k with
+  | IType => mkids n (n_dset s) (n_attr s) (n_group s)
+  | IDset => mkids (n_type s) n (n_attr s) (n_group s)
+  | IAttr => mkids (n_type s) (n_dset s) n (n_group s)
+  | IGroup => mkids (n_type s) (n_dset s) (n_attr s) n
+  end.
+
+Definition id_total (s : h5ids) : nat := n_type s + n_dset s + n_attr s + n_group s.
+
+(* one step of the block: [c] is the kind that is counted, [l] the kind that is listed and closed; closing an identifier
+   removes exactly that identifier; at most as many identifiers are closed as were listed *)
+Definition fc_pass (s : h5ids) (p : idkind * idkind) : h5ids :=
+  let (c, l) := p in id_set s l (id_count s l - Nat.min (id_count s c) (id_count s l)).
+
+(* the block as it is written in ADFH.c: datatypes, datasets, attributes, groups, each counted and listed by its own kind *)
+Definition passes_cur : list (idkind * idkind) := [(IType, IType); (IDset, IDset); (IAttr, IAttr); (IGroup, IGroup)].
+
+Definition forced_close (ps : list (idkind * idkind)) (s : h5ids) : h5ids :=
+  if Nat.eqb (id_total s) 0 then s else fold_left fc_pass ps s.
+
+(* H5Fclose with the default close degree: the file stays open inside libhdf5 while an identifier of it is open *)
+Definition file_released (s : h5ids) : bool := Nat.eqb (id_total s) 0.
+
+(* what calls of a session add to the identifiers of the file *)
+Inductive h5op := HNode | HFailedRead | HStrand (k : idkind).
+Definition h5step (s : h5ids) (o : h5op) : h5ids :=
+  match o with
+  | HNode => id_set s IGroup (S (n_group s))
+  | HFailedRead => mkids (n_type s) (S (n_dset s)) (n_attr s) (S (n_group s))
+  | HStrand k => id_set s k (S (id_count s k))
+  end.
+Definition no_ids := mkids 0 0 0 0.
+Definition h5session (ops : list h5op) : h5ids := forced_close passes_cur (fold_left h5step ops no_ids).
